@@ -6,6 +6,7 @@ import (
 	"strings"
 
 	pipeline "github.com/buildkite/go-pipeline"
+	"github.com/buildkite/go-pipeline/ordered"
 	"github.com/buildkite/go-pipeline/warning"
 	"github.com/buildkite/interpolate"
 	"verifharness/sx"
@@ -209,6 +210,52 @@ func init() {
 					first = nil
 					firstErr = jerr
 					break
+				}
+				// ordered mappings whose keys collide after expansion: top to bottom, an entry renamed onto another
+				// entry's name replaces it (a later one is then never visited), positions kept
+				if st := d.get("small_top"); rep == 0 && st != nil && st.kind == 'm' {
+					type pair struct {
+						k, v string
+						dead bool
+					}
+					var items []pair
+					for _, e := range st.m {
+						items = append(items, pair{k: e.k, v: e.v.s})
+					}
+					refOK := true
+					for i2 := range items {
+						if items[i2].dead {
+							continue
+						}
+						nk, e1 := interpolate.Interpolate(env, items[i2].k)
+						nv, e2 := interpolate.Interpolate(env, items[i2].v)
+						if e1 != nil || e2 != nil {
+							refOK = false
+							break
+						}
+						for j := range items {
+							if j != i2 && !items[j].dead && items[j].k == nk {
+								items[j].dead = true
+							}
+						}
+						items[i2].k, items[i2].v = nk, nv
+					}
+					if got, ok := p.RemainingFields["small_top"].(*ordered.MapSA); ok && refOK {
+						var wantS, gotS []string
+						for _, it := range items {
+							if !it.dead {
+								wantS = append(wantS, it.k+"="+it.v)
+							}
+						}
+						got.Range(func(k string, v any) error { gotS = append(gotS, k+"="+fmt.Sprint(v)); return nil })
+						if fmt.Sprint(gotS) != fmt.Sprint(wantS) {
+							oracleFail("C04", "ordered-collision", short, fmt.Sprintf("mapping small_top became %q, processing it top to bottom gives %q", gotS, wantS))
+							first = nil
+							firstErr = fmt.Errorf("oracle")
+							break
+						}
+						stat("C04", "ordered-collision-checked")
+					}
 				}
 				if rep == 0 {
 					first = jb
